@@ -364,23 +364,23 @@ ADDENDA = {
 }
 ADDENDA2 = {
     "C01": " Rounds 7-9 (bounded): end-relative indices into buses whose parts were resized after a width query and into same-named signals of several widths; no-connects on array / pair ports; array shares of strided, reversed, nested slices and unaligned concatenations; a design that no longer reads as written, or cannot be written, is reported.",
-    "C02": " Rounds 7-9 (bounded): clashing imported modules; ports connected and then disconnected.",
+    "C02": " Rounds 7-10 (bounded): clashing imported modules; a module named like its own descendant; ports connected and then disconnected; connections to port-less targets.",
     "C03": " Rounds 7-9 (bounded): indices into w-bit pieces of wider objects judged by the bits selected; end-relative indices after resizing; array shares of slices.",
-    "C04": " Rounds 7-9 (bounded): one connection dictionary re-used after its contents changed; bit 0 of a port reference; a port connected and then disconnected is refused like a never-connected one; the content of connectable objects is a frame of connect / replace / disconnect.",
+    "C04": " Rounds 7-9 (bounded): one connection dictionary re-used after its contents changed; bit 0 of a port reference; a port connected and then disconnected is refused like a never-connected one; the content of connectable objects is a frame of connect / replace / disconnect; arrays and pairs of two-terminal devices (ports p / n) re-connected in every way.",
     "C05": " Rounds 7-9 (bounded): one bundle type under one instance name in two modules; the invented name and the next candidates all held by the designer, in every order, for each naming rule.",
-    "C06": " Rounds 7-9 (bounded): unset parameters in dictionaries and compiled devices (every exported parameter carries a value); generated names with dotted parameter text; refused edits of exported modules; external modules whose pin list changes after use; parents repaired after a child's fault was reported. Known finding: hand-given module names with dots vs. the netlisters.",
-    "C07": " Rounds 7-9 (bounded): outcomes (package or exception) of valid and invalid new parents over children that were used before; designs written in two parts around an elaboration; built-in generators over used units.",
+    "C06": " Rounds 7-9 (bounded): unset parameters in dictionaries and compiled devices (every exported parameter carries a value); generated names with dotted parameter text; refused edits of exported modules; external modules whose pin list changes after use; parents repaired after a child's fault was reported; one external-module name in two domains. Known findings: hand-given module names with dots, and same-named external modules in two domains, vs. the netlisters (reported under their own key).",
+    "C07": " Rounds 7-9 (bounded): outcomes (package or exception) of valid and invalid new parents over children that were used before; designs written in two parts around an elaboration; built-in generators over used units; generators handing out hand-written modules that were used before.",
     "C08": " Rounds 7-9 (bounded): failures found while walking the hierarchy, inside the export and inside the bundle-flattening pass, repeated with other failures in between; generators that fall back when a sub-generator raises.",
-    "C09": " Rounds 7-9 (bounded): equal calls of one cached generator from nine contexts (inside cached / uncached generators, after elaboration, inside a body that raises afterwards, a library result handed on by a user generator).",
-    "C10": " Rounds 7-9: the per-member loop of replace_bundle_conn under contract (one connection, under the flattened port's own name, to the parent-side signal of the same path). Bounded: bundle connections whose names differ or collide on the two sides; one port per leaf of the bundle as it stands (coinciding paths, re-assigned and copied members); supply and clock leaves.",
+    "C09": " Rounds 7-9 (bounded): equal calls of one cached generator from nine contexts (inside cached / uncached generators, after elaboration, inside a body that raises afterwards, a library result handed on by a user generator); parameters pickled in another process.",
+    "C10": " Rounds 7-9: the per-member loop of replace_bundle_conn under contract (one connection, under the flattened port's own name, to the parent-side signal of the same path). Bounded: bundle connections whose names differ or collide on the two sides; one port per leaf of the bundle as it stands (coinciding paths, re-assigned and copied members); supply and clock leaves; roles equal by name; bundle-valued ports of instance arrays.",
     "C11": " Rounds 7-9 (bounded): number-like literal text on every ideal primitive; every optional parameter given as None; dotted generated and hand-given module names; parameter names like the call machinery's arguments.",
     "C12": " Rounds 7-9 (bounded): library cells with optional text parameters used earlier with them unset; stacks over units with several parallel ports; failed attempts and imports of differing declarations as earlier work; opaque parameter values.",
     "C14": " Rounds 7-9 (bounded): values a hair below a whole number; the thread's decimal context is a frame of every operation, succeeding or failing (loss of precision / another rounding rule).",
-    "C15": " Rounds 7-9 (bounded): compiled generic primitives next to direct instances of the same PDK cell; the default PDK after a late registration (fresh processes); multipliers given as zero; a second compile that raises.",
-    "C16": " Rounds 7-9 (bounded): single-level tops not elaborated before flatten() (the result as returned holds leaves on nets only; invalid ones are refused); one module under several port maps.",
+    "C15": " Rounds 7-9 (bounded): compiled generic primitives next to direct instances of the same PDK cell; the default PDK after a late registration (fresh processes); multipliers given as zero; a second compile that raises; a design exported before it is compiled.",
+    "C16": " Rounds 7-9 (bounded): single-level tops not elaborated before flatten() (the result as returned holds leaves on nets only; invalid ones are refused); one module under several port maps; leaf pins named like Instance attributes.",
     "C17": " Rounds 7-9 (bounded): save targets compared as given (names that read like a mode, the testbench port); measurements on analysis objects of every kind; literal text with indentation.",
     "C18": " Rounds 7-9: the reserved names are stated in the specification, not read from the code. Bounded: nine kinds of edit of an elaborated module are refused and leave no trace; visibility changed in place, then the object moved or added again.",
-    "C19": " Rounds 7-9 (bounded): units with a namesake of a flattened bundle member, flipped and one-leaf bundle ports (directions kept), units left half-way by a failed parent.",
+    "C19": " Rounds 7-9 (bounded): units with a namesake of a flattened bundle member, flipped and one-leaf bundle ports (directions kept), units left half-way by a failed parent; stacks of 11 and more units; series ports given one by name and one as object.",
 }
 for pid in ALL:
     c = CLAIMS.get(pid)
